@@ -34,7 +34,7 @@ inductive Src where
 inductive Msg (ε : Type) where
   | ev (src : Src) (e : ε)
   | bar (k : Nat)
-  deriving Repr
+  deriving DecidableEq, Repr
 
 /-- what a step did (ghost history entry = one record of the implementation trace) -/
 inductive Obs (ε : Type) where
@@ -212,13 +212,16 @@ inductive Reach (net : Net σ ε) (s0 : St σ ε) : St σ ε → Prop where
   | tail {s s' : St σ ε} (l : Label) : Reach net s0 s → Step net s l s' → Reach net s0 s'
 
 /-- labels that can possibly be enabled -/
-def candidates (net : Net σ ε) : List Label :=
+def candidates (net : Net σ ε) (s : St σ ε) : List Label :=
   [.feed, .start, .collect] ++
-    (List.range net.n).flatMap (fun c => [Label.recv c, Label.fwd c, Label.inject c])
+    (List.range net.n).flatMap (fun c => [Label.recv c, Label.fwd c]) ++
+    (match s.pending with
+     | some p => p.toInject.map Label.inject
+     | none => [])
 
 /-- executable successor function -/
 def next (net : Net σ ε) (s : St σ ε) : List (Label × St σ ε) :=
-  (candidates net).filterMap (fun l => (step net s l).map (fun s' => (l, s')))
+  (candidates net s).filterMap (fun l => (step net s l).map (fun s' => (l, s')))
 
 /-- run a schedule (list of labels); `none` if some label is not enabled -/
 def runL (net : Net σ ε) : St σ ε → List Label → Option (St σ ε)
@@ -275,6 +278,9 @@ def outOf (log : List (Obs ε)) (c : Nat) : List ε := log.filterMap (outOfOf c)
 /-- no event is queued or half-processed anywhere -/
 def Quiescent (net : Net σ ε) (s : St σ ε) : Prop :=
   ∀ c, c < net.n → s.inbox c = [] ∧ s.pend c = []
+
+instance [DecidableEq ε] (net : Net σ ε) (s : St σ ε) : Decidable (Quiescent net s) := by
+  unfold Quiescent; infer_instance
 
 /-! ## coordinated checkpoints -/
 
